@@ -149,7 +149,7 @@ class Proof:
       self.ctx.log(f"lemma {name}: skipped (depends on unproved steps)")
       return False
     if using is not None:
-      for tactic in (None, "qfnra-nlsat"):
+      for tactic in ("qfnra-nlsat", None):
         small = kh.Session(self._using(using), timeout_ms=min(self.timeout_ms, 5000), tactic=tactic)
         res = small.prove(name, goal)
         if res.status == "unsat":
@@ -815,7 +815,9 @@ def unit_plane_capsule(ctx):
         P.lemma("normalize-arg", veq(xn, arg))
         P.lemma("|arg|^2", dot(arg, arg) == 1 - e * e, using=unit)
         P.lemma("e^2<=3/4", e * e <= Q("3/4"), using=unit + [cond])
-        P.lemma("len^2", ln * ln == 1 - e * e, using=["normalize-arg", "|arg|^2", ln * ln == dot(xn, xn)])
+        P.lemma("xn.xn", dot(xn, xn) == 1 - e * e, using=unit)
+        P.lemma("xn.xn'", dot(xn, xn) == dot(arg, arg), using=["normalize-arg"])
+        P.lemma("len^2", ln * ln == 1 - e * e, using=["xn.xn", "xn.xn'", "|arg|^2", ln * ln == dot(xn, xn)])
         P.lemma("len>0", ln > 0, using=["len^2", "e^2<=3/4", ln >= 0])
         P.lemma("nrm*len=arg", veq(scl(nrm, ln), arg), using=["normalize-arg", "len>0", z3.Implies(ln > 0, z3.And(veq(scl(nrm, ln), xn), dot(nrm, nrm) == 1))])
         P.lemma("nrm.nrm=1", dot(nrm, nrm) == 1, using=["len>0", z3.Implies(ln > 0, z3.And(veq(scl(nrm, ln), xn), dot(nrm, nrm) == 1))])
